@@ -66,3 +66,33 @@ func TestDiagLeak(t *testing.T) {
 	}
 	fmt.Fprintf(core.Stdout, "no leak\n")
 }
+
+// TestDiagTwice (SMSIM_DIAG_SEED=<run seed>): executes one run twice in this
+// process and prints the first trace lines that differ.
+func TestDiagTwice(t *testing.T) {
+	sd := os.Getenv("SMSIM_DIAG_SEED")
+	if sd == "" {
+		t.Skip()
+	}
+	seed, _ := strconv.ParseUint(sd, 10, 64)
+	var tr [2][]string
+	var lastHash uint64
+	for i := 0; i < 2; i++ {
+		c := core.NewRunCtx(t, "C07", "quick", core.NewTape(seed))
+		c.KeepTrace = true
+		Run(c)
+		tr[i] = c.Trace
+		lastHash = c.Hash()
+	}
+	n := 0
+	for i := 0; i < len(tr[0]) && i < len(tr[1]); i++ {
+		if tr[0][i] != tr[1][i] {
+			fmt.Fprintf(core.Stdout, "line %d:\n  A %s\n  B %s\n", i, clip(tr[0][i]), clip(tr[1][i]))
+			n++
+			if n > 6 {
+				break
+			}
+		}
+	}
+	fmt.Fprintf(core.Stdout, "lens %d %d, differing lines shown %d hash %016x\n", len(tr[0]), len(tr[1]), n, lastHash)
+}
